@@ -88,8 +88,9 @@ def _is_comment(l):
 
 
 def object_lines(problem):
-    """the lines every object formats to, in the writer's order (on a deep copy: formatting mutates)"""
-    p = copy.deepcopy(problem)
+    """the lines every object formats to, in the writer's order. Formatting may adjust the trees: hand in a
+    problem that is not used for anything else (read the text once more)."""
+    p = problem
     v = p.mcnp_version
     out = {"message": [], "title": "", "cells": [], "surfaces": [], "data": [], "data_owner": []}
     if p.message:
